@@ -148,6 +148,13 @@ type namedSchedule struct {
 
 func scheduleAlphabet() []namedSchedule {
 	out := []namedSchedule{{"S1", world.PrimeSchedule(0)}, {"S2", world.PrimeSchedule(1)}, {"S3", world.PrimeSchedule(2)}}
+	// accepted schedules that differ from another one in a single section only
+	mix := func(name string, bi, bo int) namedSchedule {
+		m := world.PrimeSchedule(bi).Clone()
+		m[vmcommon.BaseOperationCostString] = world.PrimeSchedule(bo).Clone()[vmcommon.BaseOperationCostString]
+		return namedSchedule{name, m}
+	}
+	out = append(out, mix("S1+base(S2)", 0, 1), mix("S2+base(S3)", 1, 2), mix("S3+base(S1)", 2, 0))
 	s2 := world.PrimeSchedule(1)
 	for _, f := range world.BuiltInFields {
 		z := s2.Clone()
@@ -263,7 +270,7 @@ func C16(tier Tier) int {
 			if consumed != want {
 				// which schedule/field would explain the charge?
 				hint := ""
-				for _, ns := range alphabet[:3] {
+				for _, ns := range alphabet[:6] {
 					for _, f := range world.BuiltInFields {
 						if times*builtin(ns.s, f)+pc.extra(ns.s, l) == consumed {
 							hint = fmt.Sprintf(" (it equals the charge under %s with field %s)", ns.name, f)
@@ -315,7 +322,7 @@ func C16(tier Tier) int {
 			map[string]interface{}{"sequence": []string{"S2", "S2[ESDTBurn=0]"}, "in_force": "S2", "then": "each of the 15 priced functions executed in all its sender-side classes, charge compared with the closed form"},
 			map[string]interface{}{"class": "MultiESDTNFTTransfer/cross-shard-2-mixed", "closed_form": "2*ESDTNFTMultiTransfer + DataCopyPerByte*|payload of (S,1)|"},
 		},
-		"explanation": fmt.Sprintf("all sequences of <= %d schedule changes over an alphabet of 3 accepted schedules (pairwise distinct primes, distinct across schedules) and %d rejected ones, applied through the real factory.GasScheduleChange; the model state is the schedule in force; after every sequence each priced function is executed on the real code and its charge compared with the closed form under the schedule in force", maxLen, rejected),
+		"explanation": fmt.Sprintf("all sequences of <= %d schedule changes over an alphabet of 6 accepted schedules (three with pairwise distinct primes, distinct across schedules, and three that differ from those in one section only) and %d rejected ones, applied through the real factory.GasScheduleChange; the model state is the schedule in force; after every sequence each priced function is executed on the real code and its charge compared with the closed form under the schedule in force", maxLen, rejected),
 	}
 	return Finish(o)
 }
